@@ -84,6 +84,31 @@ def r1_translation(rep, src, tier='quick'):
     if len(modes) != 1:
         raise AnalysisError('%s: the match call on the pattern is not unique (%s)' % (mt.site, sorted(modes)))
     mode = modes.pop()
+    # every other consumer of the compiled pattern in the module asks it the same way: the translation is judged under that method
+    # (the pattern anchors its last alternative only, so `match` on it accepts names that merely start like an earlier glob)
+    for q_, fn_ in sorted(mod.funcs.items()):
+        if fn_.node is mt.node:
+            continue
+        pats = set()
+        for st_ in ast.walk(fn_.node):
+            if isinstance(st_, ast.Assign) and len(st_.targets) == 1 and isinstance(st_.targets[0], ast.Name) and isinstance(st_.value, ast.Call) and (
+                    (isinstance(st_.value.func, ast.Attribute) and st_.value.func.attr == 'files_pattern') or norm(st_.value.func) == 'globs_to_re'):
+                pats.add(st_.targets[0].id)
+        for c_ in ast.walk(fn_.node):
+            if isinstance(c_, ast.Call) and isinstance(c_.func, ast.Attribute) and c_.func.attr in ('match', 'fullmatch', 'search', 'findall', 'finditer'):
+                recv = c_.func.value
+                is_pat = (isinstance(recv, ast.Name) and recv.id in pats) or (isinstance(recv, ast.Call) and (
+                    (isinstance(recv.func, ast.Attribute) and recv.func.attr == 'files_pattern') or norm(recv.func) == 'globs_to_re'))
+                if not is_pat:
+                    continue
+                rep.saw_func(fn_)
+                what_ = '%s asks the compiled pattern with %s' % (q_, c_.func.attr)
+                if c_.func.attr == mode:
+                    rep.ok('C16.R1', fn_.site, what_, 'the method FilesParagraph.matches uses')
+                else:
+                    rep.fail('C16.R1', fn_.site, what_, 'the compiled Files pattern is asked with `%s` here while FilesParagraph.matches uses `%s`: the two answers differ (only the last '
+                             'alternative of the pattern is anchored at the end, so `match` accepts every name that merely begins like one of the earlier globs)'
+                             % (c_.func.attr, mode), where='%s:%d' % (mod.relpath, c_.lineno))
     alpha = rx.alphabet('str')
     carried = loop_carried(f.node)
     cursor_like = {n for n in carried if n in ('i', 'n', 'idx', 'pos', 'chars', 'it', 'buf', 'out', 'parts', 'pieces', 'first', 'sep')}
@@ -127,6 +152,8 @@ def r1_translation(rep, src, tier='quick'):
     basis = [[''.join(t)] for k in range(0, depth + 1) for t in itertools.product(units, repeat=k)]
     basis += [[c] for c in reps_other[3:]] + [['a' + c + 'b'] for c in reps_other[3:]]
     basis += [['a', 'b*'], ['a*', 'b'], ['a?', '', 'b'], ['*.c', 'd/*', '\\*'], []]
+    # a backslash in front of every representative of the ordinary characters (an illegal escape), alone and with text around it
+    basis += [['\\' + c] for c in reps_other[3:]] + [['a\\' + c + 'b'] for c in reps_other[3:]]
     problems = []
     n_ok = 0
     for globs in basis:
